@@ -46,7 +46,7 @@ def compare(c, which="spec"):
 
 def run(ctx):
     thorough = ctx["tier"] == "thorough"
-    n = 100000 if thorough else 4000
+    n = 100000 if thorough else 4000 * ctx.get('scale', 1)
     violations, samples = [], []
     distinct = set()
     dist = collections.Counter()
